@@ -8,17 +8,20 @@ from .. import flow
 PID = "C04"
 LEVEL = "other"
 EXPLANATION = (
-    "Static analysis over MIR. Decided: R1 (typestate) the only construction of SubscriptionSink in the workspace is in "
-    "PendingSubscriptionSink::accept, dominated by the completion (Ok arm) of the awaited MethodSink::send(response) and by "
-    "the response being a success; SubscriptionSink is the only type whose methods build subscription notifications; R2 in "
-    "send, send_timeout and try_send (siblings) the write to the connection is dominated by the false branch of "
-    "is_closed(), and is_closed() consults both the connection and the unsubscribe state; R3 the sub_id / method operands "
-    "of every sub_message_to_json / sub_err_to_json originate from the sink's own uniq_sub.sub_id / method (for the close "
-    "notification: from the same uniq_sub and notif method captured when the pending sink was built); R4 in the task "
-    "spawned by register_subscription every connection write is dominated by the Ok arm of try_join(sub_fut, accepted_rx), "
-    "at most one write per path, and accepted_tx.send is dominated by rp.is_success(); register_subscription_raw sends "
-    "none; R5 the unsubscribe callback removes exactly the key (conn_id parameter, parsed id); R6 the connection's "
-    "receiver is consumed by a single writer task. NOT decided: all interleavings; the is_closed/enqueue TOCTOU."
+    'Static analysis over MIR. Decided: R1 (typestate) the only construction of SubscriptionSink in the workspace is '
+    'in PendingSubscriptionSink::accept, dominated by the completion (Ok arm) of the awaited '
+    'MethodSink::send(response) and by the response being a success; SubscriptionSink is the only type whose methods '
+    'build subscription notifications; R2 in send, send_timeout and try_send (siblings) the write to the connection '
+    'is dominated by the false branch of is_closed(), and is_closed() consults both the connection and the '
+    'unsubscribe state; R3 the sub_id / method operands of every sub_message_to_json / sub_err_to_json originate from '
+    "the sink's own uniq_sub.sub_id / method (for the close notification: from the same uniq_sub and notif method "
+    'captured when the pending sink was built); R4 in the task spawned by register_subscription every connection '
+    'write is dominated by the Ok arm of try_join(sub_fut, accepted_rx), at most one write per path, and '
+    'accepted_tx.send is dominated by rp.is_success(); register_subscription_raw sends none; R5 the unsubscribe '
+    "callback removes exactly the key (conn_id parameter, parsed id); R6 the connection's receiver is consumed by a "
+    "single writer task. R1 also requires that the internal 'subscribe answered' oneshot fires only after the accept "
+    'response was handed to the connection; R6 also requires that the connection task joins the writer task that owns '
+    "the queue's receiver. NOT decided: all interleavings; the is_closed/enqueue TOCTOU."
 )
 RULE_TEXT = "instances = SubscriptionSink constructions, sibling send methods, notification builders, close-task writes, table removals"
 TRUSTED = ["rustc MIR", "tokio mpsc/oneshot", "futures try_join semantics"]
